@@ -80,6 +80,21 @@ class SymNumpy:
         return _np.sqrt(x)
 
     @staticmethod
+    def vectorize(f, *a, **k):
+        """np.vectorize would push results through C floats: scalars go straight to the Python function,
+        the result comes back as a 0-d object array (shape == ()) exactly like numpy's"""
+        real = _np.vectorize(f, *a, **k)
+
+        def g(x):
+            if isinstance(x, _np.ndarray) and x.shape != ():
+                return real(x)
+            r = f(x.item() if isinstance(x, _np.ndarray) else x)
+            out = _np.empty((), dtype=object)
+            out[()] = r
+            return out
+        return g
+
+    @staticmethod
     def isnan(x):
         if isinstance(x, (core.SInt, core.SReal)):
             return False
